@@ -16,6 +16,7 @@
 -/
 import PyGqlModel.Lemmas.DepthCollect
 import PyGqlModel.Lemmas.DepthAcyclic
+import PyGqlModel.Lemmas.DepthTolerant
 
 set_option linter.unusedVariables false
 set_option linter.unusedSimpArgs false
@@ -676,5 +677,100 @@ theorem wrap_spread_ge (doc doc' : Doc) (vars : Vars) (hv : Valid doc vars) (op 
     rw [hfr]
     exact this
   refine ⟨_, _, h1, h2, ?_, ?_⟩ <;> simp [hcl, depth_eq_cL doc vars op hv.1 hop]
+
+/-! ### after C19-Q1vars2.patch: conditions that cannot be evaluated keep the selection (`ruleRT`)
+
+  No availability hypothesis any more: the rule never raises, for ANY JSON request variables. The depth it
+  measures is the specified depth of the document in which every `@skip/@include` that cannot be evaluated
+  with the operation's variables is dropped (`eraseDoc`): an upper bound over the unknown condition. -/
+
+/-- specified depth under the kept-when-unknown reading of `@skip/@include` for the variable view `v` -/
+def depthK (doc : Doc) (v : Vars) (op : Op) : Nat := depth (eraseDoc v doc) v (eraseOp v op)
+
+/-- … of the i-th operation, for the variables the rule evaluates it with -/
+def depthRK (doc : Doc) (defs : List (List VarDefR)) (raw : RawVars) (i : Nat) (op : Op) : Nat :=
+  depthK doc (effectiveVarsR (defs.getD i []) raw) op
+
+private theorem depthFixedG_sim (fuel : Nat) (op : Op) (frags : List Frag) (v : Vars) :
+    depthFixedG skipSelectionT fuel op frags v = depthFixed fuel (eraseOp v op) (eraseFrags v frags) v := by
+  unfold depthFixedG depthFixed eraseOp
+  rw [nestingLevels_sim v frags fuel op.sels]
+
+theorem measuredT_eq_depthK (doc : Doc) (hu : UniqueNames doc.frags) (ha : Acyclic doc.frags) (v : Vars)
+    (op : Op) (hop : op ∈ doc.ops) (fuel : Nat) (hfuel : doc.fuel ≤ fuel) :
+    depthFixedG skipSelectionT fuel op doc.frags v = .ok (depthK doc v op) := by
+  rw [depthFixedG_sim]
+  have hac : acyclic (eraseDoc v doc).frags = true := by
+    show acyclic (eraseFrags v doc.frags) = true
+    rw [acyclic_erase]; exact acyclic_complete doc.frags hu ha
+  have hfb : ∀ f ∈ (eraseDoc v doc).frags, boundL v f.sels = true := by
+    intro f hf
+    simp only [eraseDoc, eraseFrags, List.mem_map] at hf
+    obtain ⟨g, _, rfl⟩ := hf
+    exact boundL_erase v g.sels
+  have hop' : eraseOp v op ∈ (eraseDoc v doc).ops := List.mem_map_of_mem (f := eraseOp v) hop
+  exact measured_eq_depth_op (eraseDoc v doc) v hac hfb (eraseOp v op) hop' (boundL_erase v op.sels) fuel
+    (by rw [fuel_erase]; exact hfuel)
+
+theorem ruleRT_eq_expected (doc : Doc) (defs : List (List VarDefR)) (raw : RawVars)
+    (hu : UniqueNames doc.frags) (ha : Acyclic doc.frags)
+    (limit : Nat) (filter : Option String) (fuel : Nat) (hfuel : doc.fuel ≤ fuel) :
+    ruleRT fuel limit filter doc defs raw = .ok (expected (depthRK doc defs raw) limit filter 0 doc.ops) := by
+  unfold ruleRT
+  apply ruleLoop_eq _ (depthRK doc defs raw) limit filter doc.ops 0
+  intro j op hop
+  simp only [Nat.zero_add]
+  exact measuredT_eq_depthK doc hu ha _ op (List.mem_of_getElem? hop) fuel hfuel
+
+/-- **no_raise_repaired** — the repaired rule never raises: for every document with unique, acyclic fragments
+    (what validation guarantees), EVERY JSON request variables, every limit and filter. No hypothesis on the
+    variables at all. -/
+theorem no_raise_repaired (doc : Doc) (defs : List (List VarDefR)) (raw : RawVars)
+    (hu : UniqueNames doc.frags) (ha : Acyclic doc.frags) (limit : Nat) (filter : Option String) :
+    ∃ errs, ruleRT doc.fuel limit filter doc defs raw = .ok errs :=
+  ⟨_, ruleRT_eq_expected doc defs raw hu ha limit filter doc.fuel (Nat.le_refl _)⟩
+
+/-- **flags_iff_repaired** — reported ⇔ selected and deeper than the limit under the kept-when-unknown reading -/
+theorem flags_iff_repaired (doc : Doc) (defs : List (List VarDefR)) (raw : RawVars)
+    (hu : UniqueNames doc.frags) (ha : Acyclic doc.frags) (limit : Nat) (filter : Option String) :
+    ∃ errs, ruleRT doc.fuel limit filter doc defs raw = .ok errs ∧
+      ∀ (i : Nat) (op : Op), doc.ops[i]? = some op →
+        ((∃ d, (i, d) ∈ errs) ↔ (opSelected filter op = true ∧ depthRK doc defs raw i op > limit)) := by
+  refine ⟨_, ruleRT_eq_expected doc defs raw hu ha limit filter doc.fuel (Nat.le_refl _), ?_⟩
+  intro i op hi
+  constructor
+  · rintro ⟨d, hd⟩
+    obtain ⟨o, _, h2, h3, h4, _⟩ := (mem_expected _ limit filter doc.ops 0 i d).mp hd
+    simp [hi] at h2; subst h2
+    exact ⟨h3, h4⟩
+  · rintro ⟨h3, h4⟩
+    exact ⟨_, (mem_expected _ limit filter doc.ops 0 i _).mpr ⟨op, by omega, by simpa using hi, h3, h4, rfl⟩⟩
+
+/-- **pipeline_rejects_iff_repaired** — the pipeline with the repaired rule, for ANY JSON request variables -/
+theorem pipeline_rejects_iff_repaired (doc : Doc) (defs : List (List VarDefR)) (raw : RawVars)
+    (hu : UniqueNames doc.frags) (ha : Acyclic doc.frags) (n : Nat) (filter : Option String) (defaultErrors : Nat) :
+    (∀ e, pipelineRT doc.fuel n filter doc defs raw defaultErrors ≠ .raised e) ∧
+    ((pipelineRT doc.fuel n filter doc defs raw defaultErrors).depthRejected = true ↔
+      ∃ i op, doc.ops[i]? = some op ∧ opSelected filter op = true ∧ depthRK doc defs raw i op > n) ∧
+    (pipelineRT doc.fuel n filter doc defs raw defaultErrors = .executed ↔
+      defaultErrors = 0 ∧ ∀ i op, doc.ops[i]? = some op → opSelected filter op = true → depthRK doc defs raw i op ≤ n) :=
+  outcome_generic doc.ops (depthRK doc defs raw) n filter _
+    (ruleRT_eq_expected doc defs raw hu ha n filter doc.fuel (Nat.le_refl _)) defaultErrors
+
+/-- when every directive variable is available nothing is dropped: the kept-when-unknown depth IS the depth
+    (so on `ValidDeclR` requests the repaired rule reports exactly what the unrepaired one reports) -/
+theorem depthK_eq_depth (doc : Doc) (v : Vars) (op : Op) (hb : boundL v op.sels = true)
+    (hfb : ∀ f ∈ doc.frags, boundL v f.sels = true) : depthK doc v op = depth doc v op := by
+  have hfr : eraseFrags v doc.frags = doc.frags := by
+    unfold eraseFrags
+    have : ∀ f ∈ doc.frags, eraseFrag v f = f := by
+      intro f hf
+      unfold eraseFrag
+      rw [eraseL_id v f.sels (hfb f hf)]
+    rw [List.map_congr_left this, List.map_id']
+  unfold depthK depth depthWith
+  rw [fuel_erase]
+  show levels (eraseFrags v doc.frags) v doc.fuel (eraseL v op.sels) - 1 = _
+  rw [hfr, eraseL_id v op.sels hb]
 
 end PyGql.Props.C19
